@@ -373,7 +373,9 @@ func c03(r *h.Result, rng *h.Rng, tier string, replay string) error {
 		}
 		for i := 0; i < n; i++ {
 			ms, me := maxS, maxE
-			if tier != "quick" && i%100 == 0 {
+			if (tier != "quick" && i%100 == 0) || (tier == "quick" && i%40 == 0) {
+				// streams with more entries than any per-stream threshold (1000 points) in every tier: a decoder that
+				// hands over part of a stream before it has seen all of its members shows only here (seeded C03-3)
 				ms, me = 3, 3000
 			}
 			d := c03Gen(proto, prng, ms, me)
